@@ -161,6 +161,18 @@ Theorem c04_quantile_input_ascending :
 Proof. exact asc_metrics_sorted. Qed.
 Print Assumptions c04_quantile_input_ascending.
 
+(* The boolean checkers the correspondence driver evaluates on protocol-following harness sequences
+   imply the hypotheses [consecutive] / [proto_from] of the trace theorems above. *)
+Theorem c04_consecutive_b_sound :
+  forall cfg ckpt evs st last, consecutive_b cfg ckpt st last evs = true -> consecutive cfg st last evs.
+Proof. exact consecutive_b_sound. Qed.
+Print Assumptions c04_consecutive_b_sound.
+
+Theorem c04_proto_b_sound :
+  forall cfg evs st, proto_b cfg st evs = true -> proto_from cfg st evs.
+Proof. exact proto_b_sound. Qed.
+Print Assumptions c04_proto_b_sound.
+
 (* non-vacuity: a well-formed configuration and a concrete run (three trials pause at level 1 with
    metrics 1, 2, 3; the next suggest resumes the best one from rung position 1 to level 3; the one
    after starts a new trial because 2 > quantile 5/3) *)
